@@ -44,13 +44,16 @@ EXT = {"hex": "hex", "bin": "bin", "srec": "srec", "elf": "elf", "wdc": "wdc", "
 FILLER = {"bin", "elf", "uf2", "amiga", "macho"}
 CORE = ["st", "err", "low", "high", "entry", "bpa", "end", "ic", "img", "dbg", "syms", "cnt"]
 
-# the three defects fixed through this property (replayed first on every run) and the finding
-CORPUS = [
-    ("fixed:init-byte-order", ".dw 0x1234\n.big_endian\n.dw 0x5678\n", "img=0:34125678"),
-    ("fixed:init-segment", ".msp430\n.db 1\n.bss\nbuf:\n.resb 2\n", "st=0"),
-    ("fixed:default-pass1-write", "mov.w #0, r1\nmov.w #0, r5\n", "img=0:01430543"),
-    ("fixed:no-cpu-srec", ".db 1,2,3\n", "st=0"),
-]
+def load_corpus():
+    """corpus/C13/lines.txt: <name> <substring the answer must contain> <protocol line>"""
+    out = []
+    path = os.path.join(nvlib.VERIF, "corpus", "C13", "lines.txt")
+    if os.path.exists(path):
+        for l in open(path):
+            if l.strip() and not l.startswith("#"):
+                name, want, line = l.rstrip("\n").split(" ", 2)
+                out.append((name, want, line))
+    return out
 
 
 def hx(s):
@@ -155,7 +158,9 @@ def correspondence(ctx, corr):
 def gather_programs(ctx):
     """[(label, source, files, classes)]"""
     rng = ctx.rng
-    out = []
+    # the witness of the known finding (pass-1 leftover) and its flag variant are always there
+    out = [("forced:leftover", ".msp430\n.ifndef later\n  .db 0xaa, 0xbb, 0xcc\n.endif\n.org 0x10\nlater:\n  .db 1\n", [], {"forced"}),
+           ("forced:leftover-flag", ".msp430\n.ifdef later\n  mov.w #0, r15\n.else\n  .db 1, 0\n.endif\n.org 0x10\nlater:\n  .db 1\n", [], {"forced"})]
     progs = ctx.notes.get("model_progs")
     if progs is None:
         g = G.Gen(rng, model_cpus(ctx))
@@ -188,9 +193,22 @@ def gather_programs(ctx):
     return out
 
 
-def has_forward_conditional(src):
+def inline_includes(src, files, depth=0):
+    """the statements in the order the assembler reads them"""
+    table = dict(files)
+    out = []
+    for l in src.split("\n"):
+        m = re.match(r'\s*\.include\s+"([^"]+)"', l)
+        if m and m.group(1) in table and depth < 8:
+            out.append(inline_includes(table[m.group(1)], files, depth + 1))
+        else:
+            out.append(l)
+    return "\n".join(out)
+
+
+def has_forward_conditional(src, files=()):
     """a conditional whose name is defined as a label further down: the two passes take different branches"""
-    lines = src.split("\n")
+    lines = inline_includes(src, files).split("\n")
     for i, l in enumerate(lines):
         m = re.match(r"\s*\.(ifdef|ifndef)\s+(\w+)", l)
         if m and any(re.match(r"\s*%s:" % re.escape(m.group(2)), x) for x in lines[i:]):
@@ -262,12 +280,13 @@ def inproc_stream(ctx, orc, progs, stats):
         if left and bd["st"] == "0":
             stats["leftover_programs"] = stats.get("leftover_programs", 0) + 1
             in_image = sorted(a for a in left if a in base_cells)
-            cause = "conditional-on-forward-name" if has_forward_conditional(src) else "other"
+            cause = "conditional-on-forward-name" if has_forward_conditional(src, files) else "other"
             orc["failures"].append({
                 "sig": "C13:pass1-leftover:%s%s" % (cause, "" if cause != "other" else ":" + nvlib.sha(src.encode("latin-1"))[:10]),
                 "input": src, "expected": "no byte in the image that pass 2 did not assemble",
                 "observed": "cells written in pass 1 only: " + ",".join("%x" % a for a in in_image[:8]),
-                "what": "bytes assembled only in pass 1 stay in the image (%s)" % label})
+                "what": "bytes assembled only in pass 1 stay in the image (%s)" % label,
+                "files": files, "line": [l for fi, a, b, l in rows if "t" in flagsets[fi][0]][0]})
         # scrub: pass 2 must not read data / code bytes of pass 1
         for fi, a, b, l in rows:
             fl, fill = flagsets[fi]
@@ -283,7 +302,7 @@ def inproc_stream(ctx, orc, progs, stats):
                 same = not diff
             if not same:
                 cpu = re.match(r"\s*\.(\w+)", src)
-                cause = "conditional-on-forward-name" if has_forward_conditional(src) else \
+                cause = "conditional-on-forward-name" if has_forward_conditional(src, files) else \
                     "%s:%s:%s" % (label.split(":")[0], cpu.group(1) if cpu else "none", nvlib.sha(src.encode("latin-1"))[:10])
                 orc["failures"].append({
                     "sig": "C13:pass2-reads-pass1-bytes:" + cause,
@@ -534,14 +553,15 @@ def valgrind_stream(ctx, orc, progs, stats):
 
 
 def corpus_stream(ctx, orc, stats):
-    lines = [prog_line("", 0, src) for _, src, _ in CORPUS]
-    ans = ctx.impl(lines)
-    for (name, src, want), a in zip(CORPUS, ans):
+    corpus = load_corpus()
+    ans = ctx.impl([line for _, _, line in corpus])
+    for (name, want, line), a in zip(corpus, ans):
         orc["cases"] += 1
         if want not in a:
+            src = bytes.fromhex(line.split(" ")[3]).decode("latin-1")
             orc["failures"].append({"sig": "C13:corpus:" + name, "input": src, "expected": want, "observed": core_of(a)[:300],
-                                    "what": "a defect fixed through C13 is back (" + name + ")"})
-    stats["corpus"] = len(CORPUS)
+                                    "what": "a defect fixed through C13 is back (" + name + ")", "line": line})
+    stats["corpus"] = len(corpus)
 
 
 def oracle(ctx, orc, focus=None):
@@ -567,7 +587,11 @@ def replay(ctx, rec):
     f = rec.get("failure", {})
     src = f.get("input", "")
     out = {"fails": False, "sig": f.get("sig")}
-    if f.get("line"):
+    if f.get("line") and "pass1-leftover" in f.get("sig", ""):
+        a = ctx.impl([f["line"]])
+        out["answers"] = a
+        out["fails"] = fields(a[0]).get("left", "-") != "-"
+    elif f.get("line"):
         a = ctx.impl([f["line"], prog_line("", 0, src)])
         out["answers"] = a
         out["fails"] = core_of(a[0]) != core_of(a[1]) or "DIED" in a[0]
